@@ -53,7 +53,9 @@ func init() {
 	})
 }
 
-func (o *bkFeeObs) Nontrivial(s *Sim) bool { return o.shortfalls > 0 && o.variants > 0 && o.paidBlocks > 0 }
+func (o *bkFeeObs) Nontrivial(s *Sim) bool {
+	return o.shortfalls > 0 && o.variants > 0 && o.paidBlocks > 0
+}
 
 // ChooseHeader: propose the big-bonus version once nothing is pending, approve it every round.
 func (o *bkFeeObs) ChooseHeader(s *Sim, g *Gen, hdr *bookkeeping.BlockHeader) {
